@@ -29,7 +29,7 @@ import (
 
 // Op is one user action.
 type Op struct {
-	K    string   `json:"k"` // hadd hclear limit sadd sclear set restart
+	K    string   `json:"k"` // hadd hedit hclear limit sadd sclear use set restart
 	Form []string `json:"form,omitempty"`
 	A    int      `json:"a,omitempty"`
 	B    int      `json:"b,omitempty"`
@@ -300,6 +300,12 @@ func (e *engine) Generate(seed uint64, idx int, tier string, avoid []harness.Fin
 				c.Ops = append(c.Ops, Op{K: "hadd", Form: f}) // immediate duplicate
 			}
 		case x < wHist+wStash:
+			if r.Pct(18) {
+				// switch to another stash file (0 = the default one)
+				c.Ops = append(c.Ops, Op{K: "use", A: r.Intn(3)})
+				sn = 0
+				break
+			}
 			c.Ops = append(c.Ops, Op{K: "sadd", Form: genForm(r, avoid, true)})
 			sn++
 		case x < wHist+wStash+wSet:
@@ -447,6 +453,11 @@ type world struct {
 	// pending crash to arm in the next incarnation (death during start-up)
 	armK     int
 	armAfter bool
+	// stashCur is the stash file in use (0 = the default one in the config
+	// directory, 1.. = files selected with use-stash); stashLeft is what a
+	// file held when the session last left it, as far as that is known
+	stashCur  int
+	stashLeft map[int]formList
 }
 
 func (e *engine) setup() {
@@ -528,6 +539,7 @@ func (w *world) boot() (fail string) {
 		}
 	})
 	repl.ZeroMods()
+	w.stashCur = 0
 	w.sess = simos.Begin(simos.Plan{})
 	w.sess.KeepLog = false
 	if w.armK > 0 {
@@ -641,6 +653,8 @@ func (w *world) apply(op Op) (crashed bool, fail string) {
 			src = fmt.Sprintf("(%s :start %d :end %d)", name, op.A, op.B)
 		}
 		_, fail = evalLisp(src)
+	case "use":
+		_, fail = evalLisp(fmt.Sprintf("(use-stash %q)", w.stashPath(op.A)))
 	case "limit":
 		_, fail = evalLisp(fmt.Sprintf("(setq *repl-history-limit* %d)", op.A))
 	case "set":
@@ -668,6 +682,26 @@ type snapshot struct {
 	stash    formList
 	settings map[string]string
 	limit    int
+}
+
+func (w *world) left(k int, fl formList) {
+	if w.stashLeft == nil {
+		w.stashLeft = map[int]formList{}
+	}
+	w.stashLeft[k] = fl
+}
+
+// fresh reports whether stash file k has never been selected in this world.
+func (w *world) fresh(k int) bool {
+	_, err := os.Stat(w.stashPath(k))
+	return err != nil
+}
+
+func (w *world) stashPath(k int) string {
+	if k == 0 {
+		return filepath.Join(w.dir, "stash.lisp")
+	}
+	return filepath.Join(w.home, fmt.Sprintf("alt%d.lisp", k))
 }
 
 func (w *world) snap() snapshot {
@@ -807,6 +841,8 @@ func (w *world) runClean(ops []Op, from int, m *model, snaps *[]snapshot, a *acc
 			*snaps = append(*snaps, before)
 		}
 		stepsBefore := w.sess.Steps
+		curBefore := w.stashCur
+		freshBefore := op.K == "use" && w.fresh(op.A)
 		crashed, fail := w.apply(op)
 		if crashed {
 			return viol("harness", "unexpected crash in fault-free run")
@@ -831,8 +867,15 @@ func (w *world) runClean(ops []Op, from int, m *model, snaps *[]snapshot, a *acc
 			if !listsEqual(before.hist, after.hist) {
 				return viol("history-restart-mismatch", "op %d: session held %s but the restart loaded %s", i, show(before.hist), show(after.hist))
 			}
-			if !listsEqual(before.stash, after.stash) {
-				return viol("stash-restart-mismatch", "op %d: session held %s but the restart loaded %s", i, show(before.stash), show(after.stash))
+			wantStash := before.stash
+			if cur := curBefore; cur != 0 {
+				// the session was using another stash file; a start loads the
+				// default one, which must hold what it held when it was left
+				w.left(cur, before.stash)
+				wantStash = w.stashLeft[0]
+			}
+			if !listsEqual(wantStash, after.stash) {
+				return viol("stash-restart-mismatch", "op %d: the default stash held %s but the restart loaded %s", i, show(wantStash), show(after.stash))
 			}
 			for _, v := range watched {
 				if before.settings[v] != after.settings[v] {
@@ -882,6 +925,27 @@ func (w *world) runClean(ops []Op, from int, m *model, snaps *[]snapshot, a *acc
 					// restart fidelity is judged from here on.
 					m.adopt(after.hist)
 				}
+			}
+		case "use":
+			w.left(curBefore, before.stash)
+			if want, known := w.stashLeft[op.A]; known {
+				if !listsEqual(after.stash, want) {
+					return viol("stash-switch-mismatch", "op %d: stash file %d held %s when the session left it, use-stash loaded %s", i, op.A, show(want), show(after.stash))
+				}
+			} else if freshBefore && len(after.stash) != 0 {
+				return viol("stash-switch-mismatch", "op %d: stash file %d was never used, use-stash loaded %s", i, op.A, show(after.stash))
+			}
+			w.stashCur = op.A
+			w.left(op.A, after.stash)
+		case "sadd":
+			// the stash has no limit: it holds what it held plus the form,
+			// unless the form repeats the most recent one
+			want := append(append(formList{}, before.stash...), op.Form)
+			if n := len(before.stash); n > 0 && formsEqual(before.stash[n-1], op.Form) {
+				want = before.stash
+			}
+			if !listsEqual(after.stash, want) {
+				return viol("stash-add", "op %d: the stash held %s, %s was stashed and now it holds %s", i, show(before.stash), show(formList{op.Form}), show(after.stash))
 			}
 		case "sclear":
 			if m != nil && op.A == 0 && op.B == -1 && len(after.stash) != 0 {
@@ -1035,6 +1099,9 @@ func (e *engine) crashRun(ops []Op, i, k int, after bool, ioErr bool, snaps []sn
 	if after {
 		side = "after"
 	}
+	// which stash file the dying incarnation was using: the next start loads
+	// the default one
+	curAtDeath, defaultLeft := w.stashCur, w.stashLeft[0]
 	if ioErr {
 		// The step fails with ENOSPC; the operation may fail (the user sees
 		// an error) and the session is then restarted: what is on disk must
@@ -1088,6 +1155,20 @@ func (e *engine) crashRun(ops []Op, i, k int, after bool, ioErr bool, snaps []sn
 	}
 	okStash := listsEqual(got.stash, A.stash) || listsEqual(got.stash, B.stash) || isSuffix(got.stash, A.stash) ||
 		(ops[i].K == "sclear" && isPrefix(got.stash, B.stash))
+	{
+		switch {
+		case curAtDeath != 0:
+			// the operation worked on another stash file (what that file
+			// holds now is learnt when it is selected again); the default
+			// file was not touched
+			okStash = listsEqual(got.stash, defaultLeft)
+			A.stash, B.stash = defaultLeft, defaultLeft
+			delete(w.stashLeft, curAtDeath)
+		case ops[i].K == "use":
+			okStash = listsEqual(got.stash, A.stash)
+			delete(w.stashLeft, ops[i].A)
+		}
+	}
 	if !okStash {
 		return viol("crash-stash-inconsistent",
 			"death %s step %d of op %d (%s): next start loaded stash %s; before the op %s, after it %s",
